@@ -1,0 +1,9 @@
+//go:build verif
+
+package sync
+
+// VerifSetStopDownloaderOnIterationN exposes the test-only iteration limit of the download loop to the
+// verification harness (the loop returns, without closing the channel, after n completed iterations).
+func VerifSetStopDownloaderOnIterationN(d *EVMDownloader, n int) {
+	d.setStopDownloaderOnIterationN(n)
+}
